@@ -93,6 +93,13 @@ structure F64 where
 /-- the zero value `+0.0` -/
 def F64.zero : F64 := ⟨0⟩
 
+/-- `float32`, copy-only like `F64` -/
+structure F32 where
+  bits : UInt32
+  deriving DecidableEq, Repr, Inhabited
+
+def F32.zero : F32 := ⟨0⟩
+
 /-- a Go `string`: its bytes (strings are immutable values in Go too) -/
 abbrev Str := List UInt8
 
